@@ -242,3 +242,18 @@ Section EditStop.
        ro_effs (run_check finder rc disc o) = []).
   Proof. intros disc [->| ->]; repeat split; reflexivity. Qed.
 End EditStop.
+
+(* a complete tree has nothing to report *)
+Lemma expected_missing_complete finder cfg rfail : forall files i,
+  (forall k b es, nth_error files k = Some b ->
+     file_entries finder cfg (rfail (i + k)%nat) b = FEntries es -> filter missing_insert es = []) ->
+  expected_missing finder cfg rfail files i = [].
+Proof.
+  induction files as [|b files IH]; intros i H; [reflexivity|]. cbn [expected_missing].
+  assert (H' : forall k b0 es, nth_error files k = Some b0 ->
+             file_entries finder cfg (rfail (S i + k)%nat) b0 = FEntries es -> filter missing_insert es = []).
+  { intros k b0 es Hn Hf. apply (H (S k) b0 es Hn). replace (i + S k)%nat with (S i + k)%nat by lia. exact Hf. }
+  destruct (file_entries finder cfg (rfail i) b) as [| | |es] eqn:E; try (apply IH; exact H').
+  unfold missing_reports. rewrite (H 0%nat b es eq_refl) by (rewrite Nat.add_0_r; exact E).
+  cbn. apply IH. exact H'.
+Qed.
